@@ -226,7 +226,20 @@ def run_draws(case):
             labels.append("retuned-after-construction")
         else:
             op = build_op(d)
+        if kind in DEFS and "mask" not in d:
+            # another operation of the same family has ITS mask edited in place: this one keeps the default mask
+            other = build_op(dict(d, size=0.01))
+            if getattr(other, "mask", None) is not None:
+                other.mask[2, :] = False
+                other.mask[0, 1] = False
+                labels.append("sibling-mask-edited-in-place")
         for i in range(case["n"]):
+            if kind in ("Rotation", "TranslationRotation") and i == case["n"] // 2:
+                # the masses of the group change between two calls of the same operation object (isotope substitution)
+                m_new = atoms.get_masses()
+                m_new[ctx._moving_indices] = m_new[ctx._moving_indices][::-1] * 1.7 + 0.3
+                atoms.set_masses(m_new)
+                labels.append("masses-changed-between-calls")
             if kind == "Composite":
                 clone = np.random.Generator(np.random.PCG64())
                 state0 = ctx.rng.bit_generator.state
